@@ -117,7 +117,7 @@ pub fn all() -> Vec<PropDef> {
     v.push(PropDef {
         miri: None,
         id: "C08", level: "exploration", driver: "D2 deterministic executor in strict wake-only mode + closed-loop peer",
-        scens: vec![s("closed_loop", d2::c08, 90_000, 3_000_000)],
+        scens: vec![s("closed_loop", d2::c08, 90_000, 3_000_000), s("closed_loop_duplex", d2::c08_duplex, 45_000, 1_500_000)],
         rule: "each run = one connection under the closed-loop peer of the quantifier (whole records, delivered in arbitrary pieces; after each GetValues/unknown-type record everything further is withheld until the complete reply is in the transport log) with queries at every placement class, seeded grouping of records into bursts, seeded handler and write-side readiness; invariant at every suspension on the transport read: all replies for complete records already read are in the log; at quiescence: no wait-for cycle; non-trivial = at least one reply owed",
         assumptions: vec!["peer sends whole records and withholds later ones (the quantifier of C08); under this peer a suspension on read cannot be mid-record behind an owed reply"],
         real: REAL_ASYNC.to_vec(), stub: STUB_ASYNC.to_vec(),
